@@ -27,7 +27,7 @@ use std::rc::Rc;
 pub fn def() -> PropDef {
     PropDef {
         id: "C05",
-        rule: "RANDOM graphs (4k quick / 120k thorough) in Resources::from_memory(): 1 entry (src/main.lua|.luau, src/app/main.lua) + 0-6 Lua/Luau modules (plain files and dir/init.lua folders in src, src/lib, src/lib/deep, src/app and inside module folders; LF or CRLF) returning a table / function / number / string / true, + a shared `counter` leaf that every module body bumps once, + 0-3 data files (json, json5, yaml, yml, toml with generated documents, txt); edges from lower to higher module index (DAG with diamonds and shared leaves) and from the entry; every require string is spelled so that its target is known by construction (./m, ./m.lua, ../x, d/../m, ././m, dir | dir/init | dir/init.lua for folders, @self/ in luau module-folder files, @lib/ @src/ through sources / aliases of a configuration FILE) and cross-checked with the documentation-only resolver of C15; requires in local / assignment / parenthesised / table constructor / argument / multiple-local / if / loop (evaluated twice) / and-operand / if-expression / type cast / interpolated string / call statement / unused local / prefix (.name, [\"name\"], (7), :describe()) / binary operand / return statement / nested function (called later, never called, function inside a function, lazy function of the returned table called by the entry) positions, written as require(\"s\"), require 's', require[[s]], with comments and line breaks inside the call; identically named module-level locals (value, M, helper, counter, calls, v, c, cache) in every module and in the entry; typed Luau modules exporting types (also generic, also re-exported through another module) referenced as m.T by the requirer, the entry declaring the same type names itself; user-defined `require` (local in a do block, parameter, local function, loop variable, entry-level until end of file) whose calls must be left alone, in the entry and in modules; excludes [@ext/**, **/vendor_*] with matching requires in the entry and in module functions; x require mode {path, luau} x generator {retain_lines, dense, readable} x rules {[], the 13 default rules} x configuration {in memory, read from a file}. The entry emits names, values, closure state (get/bump), identity comparisons of every module value it reaches through two paths, data-file content (every leaf, container sizes) and counter.n, calls returned functions, returns a value. EXHAUSTIVE (both tiers): every directed graph on the entry + at most 3 modules (66 066 graphs, self requires and edges back to the entry included): those with a cycle reachable from the entry must give an error naming every file of one of their cycles and no output, the others are checked like random graphs; plus 624 malformed projects (missing file, module with 0 / 2 return values, no return statement, return only inside a do block, empty file, syntax error, unsupported extension, invalid json / json5 / yaml / toml content) x 4 placements (required by the entry, through a chain, through a diamond, inside a function that is never called) x mode x generator x rules: error naming the offending file, no output, no panic. Non-trivial (counted for valid graphs only) = at least 2 Lua modules, at least 1 file required from at least 2 places, and the entry observes module state (counter or an identity comparison).",
+        rule: "RANDOM graphs (4k quick / 120k thorough) in Resources::from_memory(): 1 entry (src/main.lua|.luau, src/app/main.lua) + 0-6 Lua/Luau modules (plain files and dir/init.lua folders in src, src/lib, src/lib/deep, src/app and inside module folders; LF or CRLF) returning a table / function / number / string / true, + a shared `counter` leaf that every module body bumps once, + 0-3 data files (json, json5, yaml, yml, toml with generated documents, txt); + 0-2 families of SAME-NAMED files in different directories (config / common / shared / helpers / index as plain file or init folder) that files starting their relative requires at different directories (the entry, modules, earlier twins) require with one identical literal (./T, ../T, ./sub/T), each twin identifying itself (name@dir, distinct value), so that one literal means several files (class same_literal_different_file, about 64 % of random graphs; requirers starting at the same directory share their twin); edges from lower to higher module index (DAG with diamonds and shared leaves) and from the entry; every require string is spelled so that its target is known by construction (./m, ./m.lua, ../x, d/../m, ././m, dir | dir/init | dir/init.lua for folders, @self/ in luau module-folder files, @lib/ @src/ through sources / aliases of a configuration FILE) and cross-checked with the documentation-only resolver of C15; requires in local / assignment / parenthesised / table constructor / argument / multiple-local / if / loop (evaluated twice) / and-operand / if-expression / type cast / interpolated string / call statement / unused local / prefix (.name, [\"name\"], (7), :describe()) / binary operand / return statement / nested function (called later, never called, function inside a function, lazy function of the returned table called by the entry) positions, written as require(\"s\"), require 's', require[[s]], with comments and line breaks inside the call; identically named module-level locals (value, M, helper, counter, calls, v, c, cache) in every module and in the entry; typed Luau modules exporting types (also generic, also re-exported through another module) referenced as m.T by the requirer, the entry declaring the same type names itself; user-defined `require` (local in a do block, parameter, local function, loop variable, entry-level until end of file) whose calls must be left alone, in the entry and in modules; excludes [@ext/**, **/vendor_*] with matching requires in the entry and in module functions; x require mode {path, luau} x generator {retain_lines, dense, readable} x rules {[], the 13 default rules} x configuration {in memory, read from a file}. The entry emits names, values, closure state (get/bump), identity comparisons of every module value it reaches through two paths, data-file content (every leaf, container sizes) and counter.n, calls returned functions, returns a value. EXHAUSTIVE (both tiers): every directed graph on the entry + at most 3 modules (66 066 graphs, self requires and edges back to the entry included): those with a cycle reachable from the entry must give an error naming every file of one of their cycles and no output, the others are checked like random graphs; plus 624 malformed projects (missing file, module with 0 / 2 return values, no return statement, return only inside a do block, empty file, syntax error, unsupported extension, invalid json / json5 / yaml / toml content) x 4 placements (required by the entry, through a chain, through a diamond, inside a function that is never called) x mode x generator x rules: error naming the offending file, no output, no panic. Non-trivial (counted for valid graphs only) = at least 2 Lua modules, at least 1 file required from at least 2 places, and the entry observes module state (counter or an identity comparison).",
         assumptions: &[
             "modules returning nil or false are not generated: a standard Lua `require` stores `true` for a nil result and re-runs the module for a false one, Luau returns the value as is, so `required normally` is not a single behaviour there",
             "module bodies have no externally visible effect at require time other than requiring other modules and bumping the shared counter module (commutative); excluded requires appear only in the entry and in functions that modules return",
@@ -695,6 +695,9 @@ fn run(ctx: &RunCtx) {
                 st.class_n("events observed", *events as u64);
             }
             st.sample(|| json!({"files": case.files, "config": case.config, "entry": case.entry}));
+        }
+        if g.same_literal_different_file() >= 1 {
+            st.class("same_literal_different_file");
         }
         let shared = g.shared_targets();
         if shared >= 1 {
